@@ -224,6 +224,16 @@ fn cmd_exec_one(args: &[String]) -> i32 {
     let exp_refs: Vec<&Value> = exps.iter().collect();
     println!("observed: {obs}");
     println!("expected: {}", serde_json::to_string(&exps).unwrap());
+    if v["reference"].is_object() && engine != "interp" {
+        // translation validation record: show the interpreter's answer on the same case too
+        let rj = vec![(0usize, "interp".to_string())];
+        let rr = run_isolated(&rj, 20000, |(_, e)| exec::run_case(&case, e));
+        let robs = child_to_obs(&rr[0], "interp");
+        println!("interpreter: {robs}");
+        if let Err(d) = exec::same_outcome(&case, &obs, &robs) {
+            println!("engines disagree: {d}");
+        }
+    }
     match exec::judge(&case, &exp_refs, &obs, &engine) {
         exec::Judgement::Pass => { println!("verdict: agrees with the specification"); 0 }
         exec::Judgement::Skip(w) => { println!("verdict: outside the claim ({w})"); 0 }
